@@ -294,6 +294,26 @@ pub fn los_gc_cycle<Q: ObjectQueue>(los: &mut LargeObjectSpace, full_heap: bool,
 }
 '''
 
+CLIENT += r'''
+/// C18 for the large-object space: of two consecutive attempts to mark the same object with the same mark state, at most
+/// the first succeeds, the second changes nothing, and after a success the field is exactly the mark state.
+pub fn los_mark_exactly_once(los: &mut LargeObjectSpace, o: ObjectReference, value: u8) -> (r: (bool, bool))
+    requires value <= 1,
+    ensures
+        !r.1,
+        r.0 ==> final(los).meta.bits(o) == value,
+        !r.0 ==> final(los).meta == old(los).meta,
+        forall|p: ObjectReference| p != o ==> final(los).meta.bits(p) == old(los).meta.bits(p),
+        final(los).treadmill == old(los).treadmill,
+{
+    broadcast use LosMeta::axiom_width;
+    proof { lemma_los_bits(los.meta.bits(o), value); lemma_los_bits(value, value); }
+    let a = los.test_and_mark(o, value);
+    let b = los.test_and_mark(o, value);
+    (a, b)
+}
+'''
+
 CANARIES = r'''
 proof fn canary_axioms(m: LosMeta, o: ObjectReference, s: HashSet<ObjectReference>)
     ensures false
